@@ -9,7 +9,7 @@ from ..runner import Family, Unit
 from ..scenario import run_scenario
 from . import register
 from .c03 import gen_request, make_illegal
-from .c05 import CTYPES, base_scenario
+from .c05 import CTYPES, base_index, base_scenario
 from .common import ScenarioFamily
 
 FORBIDDEN_FOR_PEER_FAULT = ("LocalProtocolError", "UnsupportedProtocol", "ConnectionNotAvailable")
@@ -93,7 +93,7 @@ class CorruptFamily(Family):
             from .common import _shrink_plan
 
             rr = gen.mk_rng(bseed, "c15shared")
-            b = base_scenario(bseed, 22 + CTYPES.index(b["ctype"]), "asyncio")
+            b = base_scenario(bseed, base_index(b["ctype"], "shared"), "asyncio")
             for c in b["callers"]:
                 for op in c["ops"]:
                     _shrink_plan(op["resp"], rr.choice([1500, 3000]))
@@ -338,7 +338,7 @@ class TraceRaceFamily(ScenarioFamily):
 
     def generate(self, seed, index, tier):
         ct = ["h2tls", "h2pk", "tun_h2", "socks_auth_h2"][index % 4]
-        b = base_scenario(seed, 22 + CTYPES.index(ct), "asyncio")      # company "shared"
+        b = base_scenario(seed, base_index(ct, "shared"), "asyncio")      # company "shared"
         b["trace_yields"] = "all"
         for c in b["callers"]:
             c["start"] = 0.0
